@@ -273,7 +273,7 @@ func compileTarget(e b6.Expression, c *compilation) error {
 		var l *lambdaCall
 		l, err = compileLambda(e, c)
 		if err == nil {
-			c.Append(Instruction{Op: OpPushValue, Value: reflect.ValueOf(l)})
+			c.Append(Instruction{Op: OpPushValue, Value: reflect.ValueOf(l), Expression: e})
 		}
 	case b6.AnyLiteral:
 		err = compileLiteral(e, c)
